@@ -23,6 +23,11 @@ def apply_variant(repo, variant, dest):
     False if an anchor is missing."""
     src = os.path.join(repo, "anytree")
     shutil.copytree(src, os.path.join(dest, "anytree"), ignore=shutil.ignore_patterns("__pycache__"))
+    if variant.get("patch"):
+        import subprocess
+        r = subprocess.run(["patch", "-p1", "-s", "--no-backup-if-mismatch", "-f", "-i", variant["patch"]], cwd=dest,
+                           stdout=subprocess.PIPE, stderr=subprocess.STDOUT)
+        return r.returncode == 0
     for edit in variant["edits"]:
         rel, old, new = edit[0], edit[1], edit[2]
         count = edit[3] if len(edit) > 3 else 1
@@ -47,7 +52,7 @@ def run_variant(args):
             return (variant["id"], "skipped", "anchor text not found in current tree", [])
         try:
             import ast
-            for e in variant["edits"]:
+            for e in variant.get("edits") or []:
                 with open(os.path.join(d, e[0]), encoding="utf-8") as fh:
                     ast.parse(fh.read())
         except SyntaxError as exc:
